@@ -112,7 +112,8 @@ def expandWith : Types → List Item → List VId → List Item
     .vdecl x e.1 init :: expandWith ts r ids'
   | ts, .assign x ex :: r, ids => .assign x ex :: expandWith ts r (skipEx ex ids.tail)
 
-/-- expansion with the ids of the undo-log symbol table -/
+/-- expansion with the ids of the undo-log symbol table (a second SPECIFICATION, in the style of lib/tokenize.cpp's VariableMap;
+not a model of cppcheck's alias handling, which has no such table) -/
 def expandImpl (p : List Item) : List Item := expandWith [] p (run VarMap.init (events 0 p))
 /-- expansion with the ids of lexical scoping (stack of scopes) -/
 def expandSpec (p : List Item) : List Item := expandWith [] p (srun Spec.init (events 0 p))
@@ -151,5 +152,28 @@ def printItem : Item → List Char
 
 def printProg (p : List Item) : List Char :=
   p.flatMap fun it => printItem it ++ ['\n']
+
+/-! ## probe text for an independent oracle (a C++ compiler)
+
+The declarations of the program (initialisers and assignments removed) and, after every variable / parameter declaration, a
+`static_assert ( __is_same ( decltype ( x ) , <type in the expansion> ) , "" ) ;`.  If a compiler accepts the text, every declared
+name has, under the compiler's own name lookup, exactly the type the expansion gives it: this validates `events` / `expandWith`
+(which positions consume ids, which declaration an id names) independently of the `VarMap` refinement. -/
+
+def assertLine (x : VName) (t : Ty) : List Char :=
+  "static_assert ( __is_same ( decltype ( ".toList ++ nm x ++ " ) , ".toList ++ printTy t ++ " ) , \"\" ) ;".toList
+
+/-- walk the program and its expansion in parallel (the expansion has the same items without the alias declarations) -/
+def probeLines : List Item → List Item → List (List Char)
+  | [], _ => []
+  | .tdef u x t :: r, e => printItem (.tdef u x t) :: probeLines r e
+  | .assign _ _ :: r, e => probeLines r e.tail
+  | .vdecl x t _ :: r, .vdecl _ t' _ :: e => printItem (.vdecl x t none) :: assertLine x t' :: probeLines r e
+  | .fopen f (some (x, t)) :: r, .fopen _ (some (_, t')) :: e =>
+    printItem (.fopen f (some (x, t))) :: assertLine x t' :: probeLines r e
+  | it :: r, e => printItem it :: probeLines r e.tail
+
+def probeText (p : List Item) : List Char :=
+  (probeLines p (expandImpl p)).flatMap fun l => l ++ ['\n']
 
 end Cppcheck.AliasScope
